@@ -14,5 +14,7 @@ CONSTANTS
   Depth = 60
   EmitEvery = 20
   Faults = {"cutsrc", "endsrc", "cutsink", "softcut"}
+  WithBind = FALSE
+  WithBridge = FALSE
 INVARIANTS Emit NoViolation
 CHECK_DEADLOCK FALSE
